@@ -589,3 +589,185 @@ def viz_labels(ctx):
                 ctx.violation(f'mutation:visualization.{fn}:frame-with-{labels}-labels', why,
                               {'function': fn, 'labels': labels, 'repro': ('from vf.extra_oracles2 import viz_labels_replay\n'
                                                                            f'why = viz_labels_replay({fn!r}, {labels!r})\nprint(why)\nassert why is None\n')})
+
+
+# ======================================================================================================================
+# C17: get_likelihood at legal u next to the border of the unit cube (two-column vines: one edge, so the value is log c(u_L, u_R))
+# ======================================================================================================================
+def vine_likelihood_border_replay(vtype):
+    import pandas as pd
+    from copulas.bivariate import Bivariate
+    from copulas.multivariate import VineCopula
+    rs = np.random.RandomState(12)
+    z = rs.multivariate_normal([0, 0], [[1, .6], [.6, 1]], 150)
+    X = pd.DataFrame({'a': z[:, 0], 'b': np.exp(0.3 * z[:, 1])})
+    with np.errstate(all='ignore'):
+        v = VineCopula(vtype, random_state=3)
+        v.fit(X, truncated=1)
+        e = v.trees[0].edges[0]
+        cop = Bivariate(copula_type=e.name)
+        cop.theta = e.theta
+        us = [(0.31, 0.64), (1e-9, 0.4), (1e-8, 0.4), (0.4, 1e-9), (3e-8, 0.7), (1 - 1e-12, 0.6), (1 - 1e-9, 0.6), (0.6, 1 - 5e-8), (1e-9, 1e-9),
+              (5e-324, 0.5), (0.999999, 0.000001)]
+        vals = []
+        for u in us:
+            got = float(v.get_likelihood(np.array([list(u)])))
+            xy = np.array([[u[e.L], u[e.R]]])
+            want = float(np.log(cop.probability_density(xy))[0])
+            vals.append(got)
+            both_bad = not np.isfinite(got) and not np.isfinite(want)
+            if not both_bad and not (got == want or abs(got - want) <= 1e-9 * (1 + abs(want))):
+                return (f"VineCopula('{vtype}') on two columns (edge copula {e.name}, theta {float(e.theta):.4g}): get_likelihood(u = {u}) = {got!r} but the log "
+                        f'density of the edge copula at that point is {want!r}')
+    return None
+
+
+def vine_likelihood_border(ctx):
+    for vt in ('center', 'direct', 'regular'):
+        ctx.case(('likelihood-border', vt), {'vine': vt, 'u': 'coordinates within 1e-7 of 0 / 1, denormal, generic'})
+        try:
+            why = vine_likelihood_border_replay(vt)
+        except Exception as ex:
+            why = f'oracle raised {type(ex).__name__}: {str(ex)[:160]}'
+        ctx.obligation(f'oracle:likelihood-border:{vt}', why is None, 'correspondence', why or '')
+        if why:
+            ctx.violation(f'search:likelihood-at-border-not-edge-density:{vt}', why,
+                          {'vine': vt, 'repro': ('from vf.extra_oracles2 import vine_likelihood_border_replay\n'
+                                                 f'why = vine_likelihood_border_replay({vt!r})\nprint(why)\nassert why is None\n')})
+
+
+# ======================================================================================================================
+# C13: the density of a row does not depend on the float WIDTH of the container, and no query changes the model
+# ======================================================================================================================
+def gm_query_replay(kind):
+    import pandas as pd
+    from copulas.multivariate import GaussianMultivariate
+    from copulas.univariate import GaussianUnivariate
+    rs = np.random.RandomState(21)
+    if kind in ('float32-array', 'float16-array', 'float32-frame'):
+        z = rs.multivariate_normal([0, 0, 0], [[1, .5, -.3], [.5, 1, .2], [-.3, .2, 1]], 300)
+        X = pd.DataFrame({'a': 2 + z[:, 0], 'b': -1 + 3 * z[:, 1], 'c': z[:, 2]})
+        m = GaussianMultivariate(distribution=GaussianUnivariate, random_state=1)
+        with np.errstate(all='ignore'):
+            m.fit(X)
+            Q = np.array([[2.0, -1.0, 0.0], [5.5, 9.5, 3.25], [6.25, 11.0, 4.0], [-1.75, -12.5, -3.5], [6.5, -1.0, 4.25], [2.5, 0.5, -0.5]])
+            narrow = np.float16 if kind == 'float16-array' else np.float32
+            Qn = Q.astype(narrow)                       # the values below are exactly representable in the narrow type
+            Qw = Qn.astype(np.float64)
+            arg = pd.DataFrame(Qn, columns=list(X.columns)) if kind == 'float32-frame' else Qn
+            for meth in ('probability_density', 'log_probability_density'):
+                got = np.asarray(getattr(m, meth)(arg), dtype=float)
+                want = np.asarray(getattr(m, meth)(Qw), dtype=float)
+                if got.shape != want.shape or not np.allclose(got, want, rtol=1e-9, atol=1e-300, equal_nan=True):
+                    k = int(np.nanargmax(np.abs(got - want) / (np.abs(want) + 1e-300))) if got.shape == want.shape else 0
+                    return (f'{meth} of the row {Qw[k].tolist()} is {got[k]!r} when the rows are held in a {np.dtype(narrow).name} '
+                            f'{"DataFrame" if kind == "float32-frame" else "array"} and {want[k]!r} when the same numbers are held as float64')
+        return None
+    if kind == 'cdf-then-pdf-near-collinear':
+        a = rs.normal(size=200)
+        X = pd.DataFrame({'a': a, 'b': 2 * a + 1e-6 * rs.normal(size=200), 'c': rs.normal(size=200)})
+        m = GaussianMultivariate(distribution=GaussianUnivariate, random_state=1)
+        with np.errstate(all='ignore'):
+            m.fit(X)
+            rows = X.iloc[:5]
+            c0 = m.correlation.to_numpy().copy()
+            p1 = np.asarray(m.probability_density(rows), dtype=float)
+            try:
+                m.cumulative_distribution(rows)
+            except Exception:
+                pass
+            p2 = np.asarray(m.probability_density(rows), dtype=float)
+            c1 = m.correlation.to_numpy()
+        if not np.array_equal(c0, c1):
+            return f'cumulative_distribution changed the fitted correlation matrix (diagonal {np.diag(c0).tolist()} -> {np.diag(c1).tolist()})'
+        if not np.array_equal(p1, p2, equal_nan=True):
+            return f'probability_density of the same rows changed after a cumulative_distribution call: {p1[:3].tolist()} -> {p2[:3].tolist()}'
+        return None
+    raise ValueError(kind)
+
+
+def gm_query(ctx):
+    for kind in ('float32-array', 'float16-array', 'float32-frame', 'cdf-then-pdf-near-collinear'):
+        ctx.case(('gm-query', kind), {'history': kind})
+        try:
+            why = gm_query_replay(kind)
+        except Exception as ex:
+            why = f'oracle raised {type(ex).__name__}: {str(ex)[:160]}'
+        ctx.obligation(f'oracle:gm-query:{kind}', why is None, 'correspondence', why or '')
+        if why:
+            ctx.violation(f'witness:{kind}', why, {'kind': kind, 'repro': ('from vf.extra_oracles2 import gm_query_replay\n'
+                                                                              f'why = gm_query_replay({kind!r})\nprint(why)\nassert why is None\n')})
+
+
+# ======================================================================================================================
+# C14: every round trip yields its OWN object: rebuilding a second model of the same family must not change the first copy
+# ======================================================================================================================
+def serial_independent_copies_replay(kind, path):
+    import os
+    import tempfile
+    from copulas.bivariate import Bivariate
+    from copulas import univariate as U
+    Q = np.array([[.3, .4], [.6, .2], [.85, .9]])
+
+    def rt(m, cls):
+        if path == 'dict':
+            return cls.from_dict(m.to_dict())
+        fd, fn = tempfile.mkstemp(suffix='.json' if kind in ('clayton', 'frank', 'gumbel') else '.pkl')
+        os.close(fd)
+        try:
+            m.save(fn)
+            return cls.load(fn)
+        finally:
+            os.unlink(fn)
+    with np.errstate(all='ignore'):
+        if kind in ('clayton', 'frank', 'gumbel'):
+            a = Bivariate(copula_type=kind)
+            a.theta, a.tau = {'clayton': (2.0, 0.5), 'frank': (5.0, 0.4567), 'gumbel': (2.0, 0.5)}[kind]
+            b = Bivariate(copula_type=kind)
+            b.theta, b.tau = {'clayton': (6.0, 0.75), 'frank': (-9.0, -0.63), 'gumbel': (4.0, 0.75)}[kind]
+            a2 = rt(a, Bivariate)
+            da, ca = a2.to_dict(), np.asarray(a2.cumulative_distribution(Q), dtype=float)
+            b2 = rt(b, type(b))
+            b2.cumulative_distribution(Q)
+            same_obj = a2 is b2
+            da2, ca2 = a2.to_dict(), np.asarray(a2.cumulative_distribution(Q), dtype=float)
+            ref = np.asarray(a.cumulative_distribution(Q), dtype=float)
+        else:
+            cls = getattr(U, kind)
+            rs = np.random.RandomState(4)
+            a, b = cls(), cls()
+            a.fit(rs.gamma(2.0, 1.0, 60) + 1)
+            b.fit(rs.gamma(9.0, 3.0, 60) + 50)
+            P = np.array([1.5, 2.5, 4.0, 30.0, 80.0])
+            a2 = rt(a, U.Univariate)
+            da, ca = a2.to_dict(), np.asarray(a2.cumulative_distribution(P), dtype=float)
+            b2 = rt(b, cls)
+            b2.cumulative_distribution(P)
+            same_obj = a2 is b2
+            da2, ca2 = a2.to_dict(), np.asarray(a2.cumulative_distribution(P), dtype=float)
+            ref = np.asarray(a.cumulative_distribution(P), dtype=float)
+    if same_obj:
+        return f'{kind} ({path}): rebuilding model A and then model B of the same family returns ONE object for both'
+    if repr(da) != repr(da2) or not np.array_equal(ca, ca2, equal_nan=True):
+        return (f'{kind} ({path}): the copy of model A changed when a copy of model B (same family, other parameters) was rebuilt and used: to_dict '
+                f'{da} -> {da2}, cdf {ca.tolist()} -> {ca2.tolist()}')
+    if not np.allclose(ca, ref, rtol=1e-12, atol=0, equal_nan=True):
+        return f'{kind} ({path}): the rebuilt model answers cdf {ca.tolist()}, the original {ref.tolist()}'
+    return None
+
+
+def serial_independent_copies(ctx):
+    for kind in ('clayton', 'frank', 'gumbel', 'GaussianUnivariate', 'GammaUnivariate', 'GaussianKDE', 'TruncatedGaussian'):
+        for path in ('dict', 'file'):
+            ctx.case(('independent-copies', kind, path), {'history': 'A2 = rebuild(A); B2 = rebuild(B); use B2; observe A2', 'family': kind, 'path': path})
+            try:
+                why = serial_independent_copies_replay(kind, path)
+            except Exception as ex:
+                why = f'oracle raised {type(ex).__name__}: {str(ex)[:160]}'
+                if 'gaussian_kde' in why or "local object" in why or 'pickle' in why.lower():
+                    why = None        # F39: GaussianKDE with a scalar bandwidth cannot be pickled (known, has its own oracle); default bandwidth is fine
+            ctx.obligation(f'oracle:independent-copies:{kind}:{path}', why is None, 'correspondence', why or '')
+            if why:
+                ctx.violation(f'rt:shared-state-between-copies:{kind}:{path}', why,
+                              {'family': kind, 'path': path, 'repro': ('from vf.extra_oracles2 import serial_independent_copies_replay\n'
+                                                                       f'why = serial_independent_copies_replay({kind!r}, {path!r})\nprint(why)\nassert why is None\n')})
